@@ -34,7 +34,21 @@ def show(t):
         return "$" + t[1]
     if t[0] in ("opt", "vec"):
         return ("o(" if t[0] == "opt" else "v(") + show(t[1]) + ")"
-    return ("r(" if t[0] == "record" else "V(") + ";".join(f"{i}:{show(x)}" for i, x in t[1]) + ")"
+    return ("r(" if t[0] == "record" else "V(") + ";".join(f"{label(i)}:{show(x)}" for i, x in t[1]) + ")"
+
+
+NAMES = {}      # field id -> name, for expected types written with named labels (`n<hex>` in the replay syntax)
+
+
+def label(i):
+    return "n" + NAMES[i].encode().hex() if i in NAMES else str(i)
+
+
+def idl_hash(name):
+    h = 0
+    for b in name.encode():
+        h = (h * 223 + b) % 2 ** 32
+    return h
 
 
 # ------------------------------------------------------------------ generation
@@ -369,6 +383,25 @@ def run(pid, build_replay):
         ENVS["w"], ENVS["e"] = WIRE_DEFS, eenv
         want = coerce_args(vals, tys, exps)
         cases.append((f"co {msg.hex()} {','.join(show(e) for e in exps)} {show_defs(eenv)}", tys, vals, exps, want, WIRE_DEFS, eenv))
+    # expected types written with NAMED labels (quoted names may contain any character, commas included): the wire carries the
+    # hash, the result is the same value
+    for name in ["a,b", "x,name,unit", ",", "name", "id", "h\u00e9llo", "a\"b", "a b", "0", ""]:
+        fid = idl_hash(name)
+        others = [i for i in (1, 5) if i != fid]
+        for kind in ("variant", "record"):
+            if kind == "variant":
+                wt = ("variant", sorted([(fid, "nat")] + [(i, "null") for i in others]))
+                wv = ("variant", fid, 7)
+            else:
+                wt = ("record", sorted([(fid, "nat")] + [(i, "text") for i in others]))
+                wv = [(i, (7 if i == fid else "z")) for i, _ in wt[1]]
+            msg = Enc().message([wt], [wv])
+            ENVS["w"], ENVS["e"] = {}, {}
+            NAMES.clear()
+            want = coerce_args([wv], [wt], [wt])
+            NAMES[fid] = name
+            cases.append((f"co {msg.hex()} {show(wt)}", [wt], [wv], [wt], want, {}, {}))
+            NAMES.clear()
     p = subprocess.run([exe], input="\n".join(c[0] for c in cases) + "\n", capture_output=True, text=True, timeout=1800)
     outs = [l.strip() for l in p.stdout.splitlines()]
     if len(outs) != len(cases):
